@@ -92,14 +92,22 @@ def thunder_protection(
     def _decor(func: DecoratedFunc) -> DecoratedFunc:
         _key_template = get_cache_key_template(func, key=key)
 
-        def done_callback(_key: Key, _: asyncio.Task):
-            del tasks[_key]
+        def done_callback(_key: Key, task: asyncio.Task):
+            if tasks.get(_key) is task:
+                del tasks[_key]
+
+        def in_flight(_key: Key) -> asyncio.Task | None:
+            task = tasks.get(_key)
+            if task is not None and task.get_loop() is not asyncio.get_running_loop():
+                return None  # left behind by an event loop that is gone: it will never finish, nobody can wait for it
+            return task
 
         @wraps(func)
         async def _wrapper(*args, **kwargs):
             _key = get_cache_key(func, _key_template, args, kwargs)
-            if _key in tasks:
-                return await asyncio.shield(tasks[_key])
+            task = in_flight(_key)
+            if task is not None:
+                return await asyncio.shield(task)
             task = asyncio.create_task(func(*args, **kwargs))
             tasks[_key] = task
             task.add_done_callback(partial(done_callback, _key))
